@@ -34,7 +34,7 @@ ITEM_HARNESS = {
 PROPERTY_BOUNDED = {
     'C01': ['roundtrip'], 'C03': ['raw_keys'], 'C08': ['index_flatten'], 'C09': ['rewrite', 'hermes_rewrite'],
     'C14': ['hermes_scope'], 'C13': ['root_setters', 'builder_model'], 'C07': ['rmi_roundtrip'], 'C12': ['header'], 'C04': ['ordering'],
-    'C10': ['adjust', 'adjust_dups'],
+    'C10': ['adjust', 'adjust_dups'], 'C15': ['sourceview'], 'C17': ['function_name'], 'C18': ['discover'], 'C19': ['relpath'], 'C20': ['ram_bundle'],
 }
 _results = {}
 _built = {}
